@@ -326,10 +326,42 @@ func (a *Adj) ToNRI() *api.ContainerAdjustment {
 	return n
 }
 
+// Failure tokens: plain data in an adjustment that make one of the callbacks the generator is
+// configured with return an error, so that Adjust fails at that fallible step: a CDI device
+// the injector cannot resolve, a block-I/O or RDT class the resolver does not know, an
+// annotation the runtime's annotation filter rejects.
+const (
+	failCDIName    = "unresolvable.example/dev=none"
+	failClass      = "no-such-class"
+	failAnnotation = "forbidden.example/rejected"
+)
+
+// failToken names the callback a token of the adjustment makes fail ("" = none).
+func (a *Adj) failToken() string {
+	if _, ok := a.Annotations[failAnnotation]; ok {
+		return "annotation_filter"
+	}
+	for _, n := range a.CDI {
+		if n == failCDIName {
+			return "cdi"
+		}
+	}
+	if a.BlockIOClass != nil && *a.BlockIOClass == failClass {
+		return "blockio"
+	}
+	if a.RdtClass != nil && *a.RdtClass == failClass {
+		return "rdt"
+	}
+	return ""
+}
+
 // resolveBlockIO / resolveRdt are the deterministic class resolvers handed to the generator
 // under test (and used by the model to know what "class X" stands for). Each call returns a
 // fresh object.
 func resolveBlockIO(class string) (*rspec.LinuxBlockIO, error) {
+	if class == failClass {
+		return nil, fmt.Errorf("unknown block I/O class %q", class)
+	}
 	w := uint16(100)
 	for _, c := range []byte(class) {
 		w = w*31 + uint16(c)
@@ -340,6 +372,9 @@ func resolveBlockIO(class string) (*rspec.LinuxBlockIO, error) {
 }
 
 func resolveRdt(class string) (*rspec.LinuxIntelRdt, error) {
+	if class == failClass {
+		return nil, fmt.Errorf("unknown RDT class %q", class)
+	}
 	return &rspec.LinuxIntelRdt{ClosID: class, L3CacheSchema: "L3:0=" + class}, nil
 }
 
